@@ -7,6 +7,7 @@
 
 mod broker;
 mod cluster;
+mod controlsim;
 mod framework;
 mod lin;
 mod migsim;
@@ -25,11 +26,26 @@ static C04: broker::BrokerCheck = broker::BrokerCheck { prop: "C04" };
 static C06: broker::BrokerCheck = broker::BrokerCheck { prop: "C06" };
 static C10: broker::BrokerCheck = broker::BrokerCheck { prop: "C10" };
 static C12: broker::BrokerCheck = broker::BrokerCheck { prop: "C12" };
-static C13: broker::BrokerCheck = broker::BrokerCheck { prop: "C13" };
 static C18: broker::BrokerCheck = broker::BrokerCheck { prop: "C18" };
 static C03: migsim::MigrationCheck = migsim::MigrationCheck { prop: "C03" };
 static C19: migsim::MigrationCheck = migsim::MigrationCheck { prop: "C19" };
+static C07: controlsim::ControlCheck = controlsim::ControlCheck { prop: "C07" };
+static C13L: controlsim::ControlCheck = controlsim::ControlCheck { prop: "C13" };
 static C11: shuttle_eng::ShuttleCheck = shuttle_eng::ShuttleCheck { prop: "C11" };
+
+static C13E1: broker::BrokerCheck = broker::BrokerCheck { prop: "C13" };
+static C13_COMPOSITE: std::sync::OnceLock<framework::CompositeCheck> = std::sync::OnceLock::new();
+
+fn c13() -> &'static dyn Check {
+    C13_COMPOSITE.get_or_init(|| framework::CompositeCheck {
+        prop: "C13",
+        engine: "E1 broker-sim (crash-point enumeration) + E2 cluster-sim (live recovery)",
+        parts: vec![(&C13E1, 7), (&C13L, 1)],
+        quick: (640, 55),
+        thorough: (24_000, 1500),
+        level: "fault_enumeration",
+    })
+}
 
 fn lookup(id: &str) -> Option<&'static dyn Check> {
     Some(match id {
@@ -38,9 +54,11 @@ fn lookup(id: &str) -> Option<&'static dyn Check> {
         "C06" => &C06,
         "C10" => &C10,
         "C12" => &C12,
-        "C13" => &C13,
+        "C13" => c13(),
         "C18" => &C18,
         "C11" => &C11,
+        "C07" => &C07,
+        "C13L" => &C13L,
         "C03" => &C03,
         "C19" => &C19,
         _ => return None,
